@@ -293,9 +293,11 @@ class Unit:
         return header, body
 
     def lift_closure(self, file, path, prefix, name, sig, spec="", subs=None, rules_=DEFAULT_FN_RULES, wrap=None, props=None,
-                     attrs="", post_subs=None, nth=None, of=None):
+                     attrs="", post_subs=None, nth=None, of=None, block=False, fn_kw="fn", brace_at=None):
         """R-closure: the closure literal starting with `prefix` inside fn `path` is lifted to a function `name` with signature
-        `sig` (its parameters followed by its captured variables); the closure BODY text is copied unchanged."""
+        `sig` (its parameters followed by its captured variables); the closure BODY text is copied unchanged.
+        block=True (R-block): `prefix` is a token run ending with the `{` of a block expression (e.g. `s.spawn::<()>(async {`); the
+        block from that brace to its match is lifted instead (fn_kw="async fn" for an async block)."""
         if isinstance(path, str):
             path = [p.strip() for p in path.split(" :: ") if p.strip()]
         src = load(self.repo, file)
@@ -311,7 +313,17 @@ class Unit:
             hits = [hits[nth]]
         if len(hits) != 1:
             raise LostAnchor("closure prefix %r matches %d times in %s" % (prefix, len(hits), path))
-        plo, phi, blo, bhi, braced = closure_span(toks, hits[0])
+        if block:
+            pre_toks = texts(tokenize(prefix))
+            # the block's brace is the last token of the prefix, or the brace_at-th token when the prefix goes on into the block
+            blo = hits[0] + (len(pre_toks) - 1 if brace_at is None else brace_at)
+            if toks[blo].text != "{":
+                raise LostAnchor("block prefix %r: token %d is not `{`" % (prefix, blo - hits[0]))
+            bhi = match_close(toks, blo) + 1
+            braced = True
+            fired[0] = ("R-block", 1, prefix)
+        else:
+            plo, phi, blo, bhi, braced = closure_span(toks, hits[0])
         body = fbody[toks[blo].start:toks[bhi - 1].end]
         if not braced:
             body = "{ " + body + " }"
@@ -328,7 +340,7 @@ class Unit:
             pieces.append(wrap + " {\n")
         if attrs.strip():
             pieces.append(attrs.strip() + "\n")
-        pieces.append("pub fn " + name + sig.rstrip() + "\n")
+        pieces.append("pub " + fn_kw + " " + name + sig.rstrip() + "\n")
         if spec_txt:
             pieces.append(spec_txt + "\n")
         head_len = sum(len(p) for p in pieces)
